@@ -185,7 +185,8 @@ let handle = function
     let mcrc = zcrc_of_zlist (List.map (fun b -> zb.(b land 255)) (Array.to_list log)) in
     Printf.sprintf "proto n=%d log=%d:%08x disk=%d:%08x buf=%d fatal=%b" (List.length fx) n mcrc
       (List.length s1.p_disk) (zcrc_of_zlist s1.p_disk) (List.length s1.p_buf) s1.p_fatal
-  | ["bkp"; dir; crc; bufsz] ->
+  | "bkp" :: dir :: crc :: bufsz :: rest ->
+    let want_snap = (rest = ["snap"]) in
     (* Backup.backup_run: events before the call (dir/events), while the main file is copied (dir/eventsM),
        at the end of WAL_COPY1 (dir/eventsA); prints the predicted image with timestamps/segment checksums masked *)
     let ccrc = (int_of_string crc) land 1 = 1 in
@@ -207,6 +208,7 @@ let handle = function
        no COPY), the image must open to the state at the call + every store of eventsM and eventsA *)
     let evw = evs "eventsM" @ evs "eventsA" in
     let snap =
+      if not want_snap then "-" else
       if not (List.for_all ev_okb evw && cfg_ok c) then "n/a" else begin
         let (s1c, _) = checkpoint c (set_stage s1 (z_of_int 2)) false Z0 in
         let ((v, m), _) = open_image ccrc img in
